@@ -17,7 +17,7 @@ Each theorem is stated under exactly the guard under which the model performs th
 `Validator::set_next_*` checks that precede the call), plus the 64-bit range of the counters; the companion
 `…_panic` / `…_overflow` theorems state what the code does outside.
 -/
-namespace VlsModel.Props.C03Gen
+namespace VlsModel.Props.C03Fn
 open VlsModel VlsModel.Enforcement
 open VlsModel.Gen.FnEnforce (EnforcementState)
 
@@ -31,27 +31,27 @@ def toES (c : Chan) : ES :=
     previous_counterparty_commit_info := c.prevInfo }
 
 /-- `advance_holder_commitment_state` in `revoke`: `set_next_holder_commit_num(next + 1, info, sigs)` -/
-theorem C03_gen_set_next_holder_commit_num (c : Chan) (info : Nat) (h : c.next + 1 ≤ Rs.U64_MAX) :
+theorem C03_fn_set_next_holder_commit_num (c : Chan) (info : Nat) (h : c.next + 1 ≤ Rs.U64_MAX) :
     (toES c).set_next_holder_commit_num (c.next + 1) info info
       = .ok (toES { c with next := c.next + 1, cur := some info }) := by
   simp [EnforcementState.set_next_holder_commit_num, toES, Rs.uadd, h, Rs.assert]
 
 /-- any other number trips `assert_eq!(num, current + 1)` -/
-theorem C03_gen_set_next_holder_commit_num_panic (c : Chan) (num info sig : Nat)
+theorem C03_fn_set_next_holder_commit_num_panic (c : Chan) (num info sig : Nat)
     (h : c.next + 1 ≤ Rs.U64_MAX) (hn : num ≠ c.next + 1) :
     (toES c).set_next_holder_commit_num num info sig = .error .panic := by
   simp [EnforcementState.set_next_holder_commit_num, toES, Rs.uadd, h, Rs.assert, hn, Rs.panic, bind, Except.bind]
 
 /-- `signCp`, normal progression (`num = cpCommit + 1`): current moves to previous, the new point and info
     become current -/
-theorem C03_gen_set_next_counterparty_commit_num (c : Chan) (pt info : Nat) (h : c.cpCommit + 1 ≤ Rs.U64_MAX) :
+theorem C03_fn_set_next_counterparty_commit_num (c : Chan) (pt info : Nat) (h : c.cpCommit + 1 ≤ Rs.U64_MAX) :
     (toES c).set_next_counterparty_commit_num (c.cpCommit + 1) pt info
       = .ok (toES { c with prevPt := c.curPt, prevInfo := c.curInfo, curPt := some pt, curInfo := some info,
                            cpCommit := c.cpCommit + 1 }) := by
   simp [EnforcementState.set_next_counterparty_commit_num, toES, Rs.uadd, h, Rs.assert]
 
 /-- `signCp`, retry (`num = cpCommit`, `num ≥ 1`): nothing moves -/
-theorem C03_gen_set_next_counterparty_commit_num_retry (c : Chan) (pt info : Nat)
+theorem C03_fn_set_next_counterparty_commit_num_retry (c : Chan) (pt info : Nat)
     (h : c.cpCommit + 1 ≤ Rs.U64_MAX) (h0 : c.cpCommit > 0) :
     (toES c).set_next_counterparty_commit_num c.cpCommit pt info = .ok (toES c) := by
   have h1 : ¬ c.cpCommit = c.cpCommit + 1 := by omega
@@ -60,11 +60,11 @@ theorem C03_gen_set_next_counterparty_commit_num_retry (c : Chan) (pt info : Nat
   simp [EnforcementState.set_next_counterparty_commit_num, toES, Rs.uadd, h, Rs.assert, h0, h1, h2, h3]
 
 /-- `assert!(num > 0)` -/
-theorem C03_gen_set_next_counterparty_commit_num_panic (c : Chan) (pt info : Nat) :
+theorem C03_fn_set_next_counterparty_commit_num_panic (c : Chan) (pt info : Nat) :
     (toES c).set_next_counterparty_commit_num 0 pt info = .error .panic := by
   simp [EnforcementState.set_next_counterparty_commit_num, Rs.assert, Rs.panic, bind, Except.bind]
 
-theorem C03_gen_get_previous_counterparty_point (c : Chan) (n : Nat) (h : n + 2 ≤ Rs.U64_MAX) :
+theorem C03_fn_get_previous_counterparty_point (c : Chan) (n : Nat) (h : n + 2 ≤ Rs.U64_MAX) :
     (toES c).get_previous_counterparty_point n = .ok (prevPoint c n) := by
   have h1 : n + 1 ≤ Rs.U64_MAX := by omega
   unfold EnforcementState.get_previous_counterparty_point prevPoint
@@ -72,7 +72,7 @@ theorem C03_gen_get_previous_counterparty_point (c : Chan) (n : Nat) (h : n + 2 
   by_cases a : n + 1 = c.cpCommit <;> by_cases b : n + 2 = c.cpCommit <;> simp [a, b]
 
 /-- the same selector on the commitment infos (`signCp` compares a retry against `curInfo`) -/
-theorem C03_gen_get_previous_counterparty_commit_info (c : Chan) (n : Nat) (h : n + 2 ≤ Rs.U64_MAX) :
+theorem C03_fn_get_previous_counterparty_commit_info (c : Chan) (n : Nat) (h : n + 2 ≤ Rs.U64_MAX) :
     (toES c).get_previous_counterparty_commit_info n
       = .ok (if n + 1 = c.cpCommit then c.curInfo else if n + 2 = c.cpCommit then c.prevInfo else none) := by
   have h1 : n + 1 ≤ Rs.U64_MAX := by omega
@@ -81,21 +81,21 @@ theorem C03_gen_get_previous_counterparty_commit_info (c : Chan) (n : Nat) (h : 
   by_cases a : n + 1 = c.cpCommit <;> by_cases b : n + 2 = c.cpCommit <;> simp [a, b]
 
 /-- the selectors use a plain `+`: at `num = u64::MAX` the code overflows before it compares -/
-theorem C03_gen_get_previous_counterparty_point_overflow (c : Chan) :
+theorem C03_fn_get_previous_counterparty_point_overflow (c : Chan) :
     (toES c).get_previous_counterparty_point Rs.U64_MAX = .error .overflow := by
   simp [EnforcementState.get_previous_counterparty_point, Rs.uadd, Rs.U64_MAX, Rs.overflow, bind, Except.bind]
 
 /-- `revokeCp`: `set_next_counterparty_revoke_num(num)` for `num ≥ 1` drops the previous info exactly when
     `num + 1 ≥ cpCommit` and sets the counter -/
-theorem C03_gen_set_next_counterparty_revoke_num (c : Chan) (num : Nat) (h0 : num ≠ 0) (h : num + 1 ≤ Rs.U64_MAX) :
+theorem C03_fn_set_next_counterparty_revoke_num (c : Chan) (num : Nat) (h0 : num ≠ 0) (h : num + 1 ≤ Rs.U64_MAX) :
     (toES c).set_next_counterparty_revoke_num num
       = .ok (toES { c with prevInfo := if num + 1 ≥ c.cpCommit then none else c.prevInfo, cpRevoke := num }) := by
   unfold EnforcementState.set_next_counterparty_revoke_num
   by_cases a : num + 1 ≥ c.cpCommit <;> simp [toES, Rs.uadd, h, Rs.assert, h0, a]
 
 /-- `assert_ne!(num, 0)` -/
-theorem C03_gen_set_next_counterparty_revoke_num_panic (c : Chan) :
+theorem C03_fn_set_next_counterparty_revoke_num_panic (c : Chan) :
     (toES c).set_next_counterparty_revoke_num 0 = .error .panic := by
   simp [EnforcementState.set_next_counterparty_revoke_num, Rs.assert, Rs.panic, bind, Except.bind]
 
-end VlsModel.Props.C03Gen
+end VlsModel.Props.C03Fn
